@@ -19,11 +19,11 @@ EXTENDS Integers, Sequences, FiniteSets, TLC, Json, IOUtils, SequencesExt
 Entries == {"aperture_photometry", "do_photometry", "aperture_mask", "aperture_stats", "background2d", "local_background",
             "bkg_estimators", "detect_threshold", "detect_sources", "deblend_sources", "source_finder", "source_catalog",
             "find_peaks", "daofinder", "iraffinder", "starfinder", "centroids", "centroid_sources", "profiles", "psf_photometry",
-            "iterative_psf", "calc_total_error", "utils", "morphology"}
+            "iterative_psf", "calc_total_error", "utils", "morphology", "aperture_mask_edge", "stats_large"}
 Reps == {"i8", "i2", "u2", "f4", "bigendian", "fortran", "strided", "ma_nomask", "ma_allfalse", "nddata", "quantity", "mixed_units"}
 NDDataEntries == {"aperture_photometry", "aperture_stats", "psf_photometry"}
 \* entry points whose outputs are in data units (so Quantity inputs must give Quantity outputs)
-UnitEntries == {"aperture_photometry", "do_photometry", "aperture_stats", "background2d", "local_background", "detect_threshold",
+UnitEntries == {"aperture_mask_edge", "aperture_photometry", "do_photometry", "aperture_stats", "background2d", "local_background", "detect_threshold",
                 "source_catalog", "find_peaks", "profiles", "psf_photometry", "calc_total_error"}
 \* entry points that take an error array next to the data (mixing units must be rejected)
 ErrorEntries == {"aperture_photometry", "do_photometry", "aperture_stats", "source_catalog", "profiles", "psf_photometry", "centroids", "find_peaks"}
